@@ -65,8 +65,17 @@ fn shared() -> &'static Arc<Shared> {
     })
 }
 
+/// Process-wide event counters (every thread, armed or not): block allocations and deallocations.
+pub static ALLOCS: std::sync::atomic::AtomicUsize = std::sync::atomic::AtomicUsize::new(0);
+pub static DEALLOCS: std::sync::atomic::AtomicUsize = std::sync::atomic::AtomicUsize::new(0);
+
 /// The process-global hook installed into `circ::verif`.
 pub fn hook(site: u32, a: usize, b: usize) {
+    if site == 1103 {
+        ALLOCS.fetch_add(1, std::sync::atomic::Ordering::SeqCst);
+    } else if site == 1100 {
+        DEALLOCS.fetch_add(1, std::sync::atomic::Ordering::SeqCst);
+    }
     let me = ME.with(|m| m.get());
     if me == usize::MAX || !ARMED.with(|a| a.get()) {
         return;
@@ -96,6 +105,11 @@ pub fn hook(site: u32, a: usize, b: usize) {
     }
 }
 
+/// Installs the hook (idempotent).
+pub fn install() {
+    circ::verif::set_hook(Some(hook));
+}
+
 /// Logs an observation from harness code running on a model thread.
 pub fn obs(site: u32, a: usize, b: usize) {
     hook(site, a, b)
@@ -120,7 +134,7 @@ pub fn run(
     max_steps: usize,
     choose: &mut dyn FnMut(&[usize], usize) -> usize,
 ) -> RunResult {
-    circ::verif::set_hook(Some(hook));
+    install();
     let sh = shared().clone();
     let n = bodies.len();
     {
